@@ -1,14 +1,11 @@
-//! Correspondence labs: run the real divan code (from /repo's working tree,
-//! built with `--features verif_hooks`) on generated or given requests and
-//! print `request<TAB>observation` lines for the Lean model driver.
-
-mod labs;
-mod reg_child;
-mod rng;
+//! Shared code of the correspondence labs.
+pub mod labs;
+pub mod reg_child;
+pub mod rng;
 
 use std::io::{BufRead, Write};
 
-fn exec_line(req: &str) -> String {
+pub fn exec_line(req: &str) -> String {
     let req = req.trim();
     let verb = req.split(' ').next().unwrap_or("");
     let r = std::panic::catch_unwind(|| labs::exec(verb, req));
@@ -25,7 +22,8 @@ fn exec_line(req: &str) -> String {
     }
 }
 
-fn main() {
+/// `gen <lab> <seed> <n>` | `reqs <lab> <seed> <n>` | `exec` (requests on stdin).
+pub fn cli_main() {
     if let Ok(req) = std::env::var("VERIF_REG") {
         // Registry lab child: the command line belongs to divan.
         reg_child::main(&req);
@@ -44,6 +42,8 @@ fn main() {
             for req in labs::gen(lab, &mut rng, n) {
                 let obs = exec_line(&req);
                 writeln!(out, "{req}\t{obs}").unwrap();
+                // keep what was computed if a later request kills the process
+                out.flush().unwrap();
             }
         }
         Some("reqs") => {
@@ -67,7 +67,7 @@ fn main() {
             }
         }
         _ => {
-            eprintln!("usage: labs gen <lab> <seed> <n> | labs exec < requests");
+            eprintln!("usage: labs gen <lab> <seed> <n> | labs reqs <lab> <seed> <n> | labs exec < requests");
             std::process::exit(2);
         }
     }
